@@ -274,13 +274,13 @@ def plan(tier, b, basedir, profiles, fam, univ, rng):
         if tier == "thorough":
             sc += [[None, [m1, m2]] for m1 in ("yD", "b2e") for m2 in MODE_ORDER]
         else:
-            sc += [[None, ["yD", "b2e", "p"]]]
+            sc += [[None, ["yD", "b2e"]]]
         if name.startswith("family:"):          # big images: two behaviours, so that the tool runs spread over the workers
             beh.append((path, name, sc[:3])); beh.append((path, name, sc[3:]))
         else:
             beh.append((path, name, sc))
     # (b): summary-only corruptions
-    per_kind = 1 if tier == "quick" else 2
+    per_kind = 1                    # targets per kind and image (c05_summary spreads them over groups / roles)
     allrec = []
     fam_b = ("family:e4_linear", "family:e4_rehashed_then_grown", "family:up_linear")      # thorough: big images, one target per kind
     for path, name in images:
@@ -289,27 +289,31 @@ def plan(tier, b, basedir, profiles, fam, univ, rng):
         for rc in recipes_for(path, univ["summarykinds"], 1 if name.startswith("family:") else per_kind):
             allrec.append((path, name, rc))
     nrec_total = len(allrec)
+    # the mode a recipe runs in is a function of its position in the (deterministic) enumeration, the same in both tiers, so that
+    # the quick tier only ever runs (recipe, mode) pairs the thorough tier runs too
+    mode_of = {id(x): MODE_ORDER[i % 5] for i, x in enumerate(allrec)}
     if tier == "quick":
-        # stratified seeded sample: every (kind, value class) at least once, then fill
-        rng.shuffle(allrec)
+        # stratified seeded sample: every (kind, value class, checksum variant) at least once -- preferably in a mode that answers
+        # yes (preen may legitimately refuse) -- then fill up
+        order = list(allrec)
+        rng.shuffle(order)
         chosen, seen = [], set()
-        for x in allrec:
-            k = (x[2]["kind"], x[2]["val"], x[2]["csum"])
-            if k not in seen:
-                seen.add(k); chosen.append(x)
-        rest = [x for x in allrec if x not in chosen]
+        for want_yes in (True, False):
+            for x in order:
+                k = (x[2]["kind"], x[2]["val"], x[2]["csum"])
+                if k not in seen and (mode_of[id(x)] != "p" or not want_yes):
+                    seen.add(k); chosen.append(x)
+        ids = {id(x) for x in chosen}
+        rest = [x for x in order if id(x) not in ids]
         chosen += rest[:max(0, 110 - len(chosen))]
-        # the first recipe of every kind runs in a mode that answers yes (preen may legitimately refuse); the fill cycles through all five
-        nk = len(seen)
-        rep = ["y", "yD", "b2e", "fo"]
-        sel = [(x, [rep[i % 4] if i < nk else MODE_ORDER[i % 5]]) for i, x in enumerate(chosen)]
+        sel = [(x, [mode_of[id(x)]]) for x in chosen]
     else:
         sel = []
         for i, x in enumerate(allrec):
             if x[1].startswith("family:"):
                 ms = [["y", "yD", "b2e", "fo", "p"][i % 5]]
             else:
-                ms = MODE_ORDER if i % 4 == 0 else [MODE_ORDER[i % 5], "y"]
+                ms = [MODE_ORDER[i % 5]] + (["y"] if i % 4 == 0 else [])      # every recipe in one mode (cycling), every 4th also in -fy
             sel.append((x, list(dict.fromkeys(ms))))
     by_img = {}
     for (path, name, rc), ms in sel:
